@@ -306,12 +306,14 @@ def run_shard(spec, acc):
     dbx = refdb.db()
     tier, seed = spec["tier"], spec["seed"]
     dec = NMEA2000Decoder()
-    defs = [d for d in dbx.defs if d.index % spec["n"] == spec["i"]]
+    defs = gen.shard_by_pgn(dbx.defs, spec["i"], spec["n"])
     quick = tier == "quick"
     per_field_random = 4 if quick else 30
     n_combo = 200 if quick else 12000
     n_rand = 40 if quick else 3000
     n_var = 200 if quick else 12000
+    audited = set()
+    interleaved_siblings(dbx, dec, defs, f"{seed}-pre", acc, quick)
     for d in defs:
         rng = gen.rng_for(seed, ID, d.id)
         acc.count("definitions_exercised")
@@ -320,6 +322,7 @@ def run_shard(spec, acc):
             for label, payload, nb in fixed_cases(dbx, d, rng, per_field_random, n_rand, n_combo):
                 judge_case(dbx, dec, d, label, payload, nb, acc)
                 acc.cover("value_classes", label.split(":")[-1])
+            lookup_audit(dbx, dec, d, rng, acc, audited)
             if not quick:
                 exhaustive_small_fields(dbx, dec, d, rng, acc)
         else:
@@ -338,6 +341,60 @@ def run_shard(spec, acc):
                         continue
                     p2 = (payload & ~(f.mask << f.off)) | (u << f.off)
                     judge_case(dbx, dec, d, f"{f.id}:{name}", p2, max(nb, (p2.bit_length() + 7) // 8), acc, texts)
+    interleaved_siblings(dbx, dec, defs, f"{seed}-post", acc, quick)
+
+
+def interleaved_siblings(dbx, dec, defs, seed, acc, quick):
+    """Sibling definitions of one PGN number decoded alternately on the same long-lived decoder."""
+    for ds in gen.sibling_groups([d for d in defs if d.fixed_layout and d.supported]):
+        rng = gen.rng_for(seed, ID, "siblings", ds[0].pgn)
+        for _ in range(80 if quick else 3000):
+            d = rng.choice(ds)
+            nb = (d.total_bits() + 7) // 8 if d.length is None else d.length
+            judge_case(dbx, dec, d, "interleaved-siblings", dbx.pack(d, gen.base_raws(d, rng, dbx)), nb, acc)
+            acc.count("interleaved_sibling_decodes")
+
+
+def lookup_audit(dbx, dec, d, rng, acc, audited):
+    """Every entry of every lookup / bit-lookup / indirect-lookup table is decoded at least once per shard through a
+    field that uses it (catches a single altered or missing table entry, also in 16-bit lookups)."""
+    fields = [f for f in d.fields if f.off is not None and f.bits is not None and f.match is None]
+    base = None
+    nb = (d.total_bits() + 7) // 8 if d.length is None else d.length
+    for f in fields:
+        if f.ftype == "LOOKUP":
+            key = ("L", f.lookup, f.bits)
+            values = [v for v in dbx.lookups[f.lookup] if 0 <= v <= f.mask]
+        elif f.ftype == "BITLOOKUP":
+            key = ("B", f.bitlookup, f.bits)
+            values = [1 << b for b in dbx.bitlookups[f.bitlookup] if b < f.bits]
+        elif f.ftype == "INDIRECT_LOOKUP":
+            key = ("I", f.indirect, f.bits)
+            values = None
+        else:
+            continue
+        if key in audited:
+            continue
+        audited.add(key)
+        if base is None:
+            base = gen.base_raws(d, rng, dbx)
+        if values is None:
+            other = next((g for g in d.fields if g.order == f.indirect_order), None)
+            if other is None or other.off is None:
+                continue
+            for (v1, v2) in dbx.indirect[f.indirect]:
+                raws = dict(base)
+                raws[other.order] = v1 & other.mask
+                raws[f.order] = v2 & f.mask
+                judge_case(dbx, dec, d, f"{f.id}:indirect_table_entry", dbx.pack(d, raws), nb, acc)
+                acc.count("lookup_table_entries_audited")
+            continue
+        for v in values[:4000]:
+            raws = dict(base)
+            raws[f.order] = v
+            judge_case(dbx, dec, d, f"{f.id}:lookup_table_entry", dbx.pack(d, raws), nb, acc)
+            acc.count("lookup_table_entries_audited")
+        acc.cover("lookup_tables_audited", key[1])
 
 
 def exhaustive_small_fields(dbx, dec, d, rng, acc):
